@@ -337,7 +337,7 @@ func guardedByFailedLazyTest(c *core.Ctx, blk *ssa.BasicBlock) bool {
 }
 
 func c05Lazy(c *core.Ctx, r *core.Report, l *lifecycleRoles) {
-	ro := c.Roles()
+	_ = c.Roles()
 	ev := l.ev
 	fimpls := c.Implementors(c.Iface("container", "Factory"))
 	allowed := map[*ssa.Function]string{l.populator: "populator (dependency-driven)"}
@@ -357,17 +357,35 @@ func c05Lazy(c *core.Ctx, r *core.Report, l *lifecycleRoles) {
 			allowed[m] = "public lookup"
 		}
 	}
-	// the post-processor bootstrap: the function that fills the processor list from the sorter
-	var bootstrap *ssa.Function
-	for _, s := range c.CallSites(func(com *ssa.CallCommon) bool { return core.IsCallTo(com, ro.Sorter) }) {
-		if cal := s.Common().StaticCallee(); cal != nil && len(cal.TypeArgs()) == 1 {
-			if n := core.NamedOf(cal.TypeArgs()[0]); n != nil && n.Obj().Name() == "ComponentPostProcessor" {
-				bootstrap = s.Parent()
-			}
-		}
+	// the post-processor bootstrap: the routine that sorts the registered processors and creates the eager ones
+	bs, bsWhy := findBootstrap(c)
+	if bs != nil {
+		allowed[bs.fn] = "post-processor bootstrap"
+	} else {
+		r.Undecided("C05.R6", "bootstrap", "", bsWhy)
 	}
-	if bootstrap != nil {
-		allowed[bootstrap] = "post-processor bootstrap"
+	// a helper whose every caller lies in one allowed role inherits it
+	var roleOf func(fn *ssa.Function, depth int) string
+	roleOf = func(fn *ssa.Function, depth int) string {
+		if w, ok := allowed[fn]; ok {
+			return w
+		}
+		if depth == 0 || fn.Object() == nil || fn.Object().Exported() || len(c.FuncValueUses(fn)) != 0 {
+			return ""
+		}
+		role := ""
+		for _, caller := range c.Callers(fn) {
+			ct := core.TopLevel(caller)
+			if ct == fn {
+				continue
+			}
+			w := roleOf(ct, depth-1)
+			if w == "" || (role != "" && role != w) {
+				return ""
+			}
+			role = w
+		}
+		return role
 	}
 	n := 0
 	for _, fn := range c.Scope {
@@ -378,20 +396,13 @@ func c05Lazy(c *core.Ctx, r *core.Report, l *lifecycleRoles) {
 			}
 			n++
 			top := core.TopLevel(fn)
-			what, ok := allowed[top]
+			what := roleOf(top, 3)
 			cons := "trigger@" + core.FnName(top)
-			if !ok {
+			if what == "" {
 				r.Fail("C05.R6", cons, c.Pos(ci.Pos()), "creation of a component is triggered from a site that is not in the frozen table {refresh, post-processor bootstrap, populator, public lookups}: a LazyInit component could be initialised without a dependant")
 				continue
 			}
-			switch what {
-			case "post-processor bootstrap":
-				r.Check(guardedByFailedLazyTest(c, ci.Block()), "C05.R6", cons+":lazy-guard", c.Pos(ci.Pos()), "the bootstrap creates a post-processor only under a failed LazyInit type test")
-			case "refresh":
-				c05RefreshLazy(c, r, top, ci, "C05.R6")
-			default:
-				r.Hold("C05.R6", cons, c.Pos(ci.Pos()), "creation trigger in the frozen table: "+what)
-			}
+			r.Hold("C05.R6", cons, c.Pos(ci.Pos()), "creation trigger in the frozen table: "+what)
 		}
 	}
 	r.Count("creation_trigger_sites", n)
@@ -399,6 +410,16 @@ func c05Lazy(c *core.Ctx, r *core.Report, l *lifecycleRoles) {
 	if refresh == nil {
 		r.Undecided("C05.R6", "role:Refresh", "", "no Factory implementation declares Refresh")
 	}
+	// which definitions the two eager triggers create: decision tables
+	if bs != nil {
+		bsTable(c, r, bs, "C05.R6", map[string]bool{"eager-create": true})
+	}
+	refreshRules(c, r, func(row string) string {
+		if row == "eager-only" {
+			return "C05.R6"
+		}
+		return ""
+	})
 }
 
 // c05RefreshLazy: the refresh loop iterates a list whose elements were appended only under a failed LazyInit test.
